@@ -112,6 +112,13 @@ impl<'a> W<'a> {
     pub fn user(&self, i: usize) -> Addr {
         self.s.users[i].clone()
     }
+    /// a plain bank transfer between two tracked accounts (e.g. LP handed to the pool manager's address)
+    pub fn bank_send(&mut self, from: &Addr, to: &Addr, c: Coin) {
+        use cw_multi_test::Executor;
+        let r = self.s.app.execute(from.clone(), cosmwasm_std::BankMsg::Send { to_address: to.to_string(), amount: vec![c.clone()] }.into());
+        let body = json!({"sender": self.s.sym_of(from.as_str()), "to": self.s.sym_of(to.as_str()), "funds": funds_json(&self.s, &[c])});
+        self.finish("bank_send", body, &r);
+    }
     pub fn who(&self, sym: &str) -> Addr {
         self.s.addr_of(sym)
     }
@@ -552,6 +559,41 @@ fn sc_position_roles_and_boundary(t: &mut Tracer) {
     // open position cannot be withdrawn normally
     w.pos_withdraw(&b, "p-1", None, &[]);
     w.pos_withdraw(&c, "u-carol", Some(false), &[]);
+}
+
+/// the pool manager's address acts for users (the locked-deposit flow seen from the farm manager): positions it creates and
+/// tops up belong to the user, weigh for the user and earn for the user
+fn sc_pool_manager_on_behalf(t: &mut Tracer) {
+    let mut w = W::new(SysCfg::default(), 1, t, "pool_manager_on_behalf");
+    let lp = w.lps[0].clone();
+    let (o, b, c) = (w.user(0), w.user(1), w.user(2));
+    let pmaddr = w.who("pm");
+    let f = w.fee_funds(&coin(60_000, "uweth"));
+    w.create_farm(&o, &lp, Some(1), Some(13), coin(60_000, "uweth"), Some("f".into()), &f);
+    w.bank_send(&b, &pmaddr, coin(10_000, lp.clone()));
+    w.pos_create(&pmaddr, Some("forb".into()), DAY, Some(b.clone()), &[coin(1000, lp.clone())]);
+    w.pos_create(&c, Some("c".into()), DAY, None, &[coin(1000, lp.clone())]);
+    w.advance(DAY);
+    w.pos_expand(&pmaddr, "u-forb", &[coin(2000, lp.clone())]);
+    w.pos_expand(&c, "u-forb", &[coin(2000, lp.clone())]); // a stranger: refused
+    w.advance(DAY);
+    w.claim(&b, None, &[]);
+    w.claim(&c, None, &[]);
+    w.claim(&pmaddr, None, &[]); // the delegate owns nothing
+    w.pos_expand(&pmaddr, "u-forb", &[coin(1000, lp.clone())]);
+    w.pos_close(&pmaddr, "u-forb", None, &[]); // not a delegate for closing
+    w.advance(DAY);
+    w.claim(&b, None, &[]);
+    w.claim(&c, None, &[]);
+    w.pos_close(&b, "u-forb", Some(coin(1500, lp.clone())), &[]);
+    w.pos_expand(&pmaddr, "u-forb", &[coin(500, lp.clone())]);
+    w.advance(DAY);
+    w.claim(&b, None, &[]);
+    w.claim(&c, None, &[]);
+    w.pos_close(&b, "u-forb", None, &[]);
+    w.advance(DAY);
+    w.claim(&c, None, &[]);
+    w.pos_withdraw(&b, "u-forb", None, &[]);
 }
 
 /// C09: emergency withdrawals — open / closed at several elapsed times, owner sets, penalties
@@ -1137,6 +1179,7 @@ pub fn run(rng: &mut StdRng, thorough: bool, t: &mut Tracer) {
     sc_alternating_lp_positions(t);
     sc_unlock_range_narrowed(t);
     sc_emergency_flag_after_unlock(t);
+    sc_pool_manager_on_behalf(t);
     sc_instantiate_shapes(t);
     sc_config_update_shapes(t);
     sc_position_limits(t);
